@@ -23,6 +23,9 @@ func isTopDir(f *File) bool {
 }
 
 func (rt *Transfer) deleteFiles(fileList []*File) error {
+	if rt.DestRoot == nil {
+		return nil // only listing: there is no destination to delete in
+	}
 	if rt.IOErrors > 0 {
 		rt.Logger.Printf("IO error encountered, skipping file deletion")
 		return nil
